@@ -83,6 +83,11 @@ def gen_definition(rng, fam):
         return "tk_%s_%d" % (t, tok[0])
 
     def pub_value(t):
+        if rng.random() < 0.04:
+            # a dict whose KEY is an expression: a string key ("y0"), or -- as a failing expression -- a list
+            if rng.random() < fam["p_bad"] * 4:
+                return {L.ctx("lst"): 1}
+            return {L.ctx("y"): token(t)}
         r = rng.random()
         if r < 0.45:
             return token(t)
@@ -130,7 +135,8 @@ def gen_definition(rng, fam):
         # with items
         if rng.random() < fam["p_items"]:
             form = rng.random()
-            conc = rng.choice([None, None, 1, 2, 3, L.ctx("d"), 0, L.ctx("d"), L.ctx("neg"), L.ctx("n")])
+            conc = rng.choice([None, None, 1, 2, 3, L.ctx("d"), 0, L.ctx("d"), L.ctx("neg"), L.ctx("n")]
+                              + [L.ctx("d")] * fam.get("w_conc_var", 0))
             if form < 0.4:
                 w = {"items": maybe_bad(L.ctx("lst"))}
                 spec["input"] = {"m": L.e("item()")}
@@ -177,6 +183,8 @@ def gen_definition(rng, fam):
                         pubs.append({var: rng.choice([2, 3, 0])})
                     else:
                         pubs.append({var: maybe_bad(pub_value(t))})
+                if rng.random() < fam.get("p_pub_d", 0.0):
+                    pubs.append({"d": rng.choice([2, 3, 0])})
                 # one-key dicts must be unique
                 seen = set()
                 pubs = [p for p in pubs if not (list(p)[0] in seen or seen.add(list(p)[0]))]
